@@ -107,6 +107,20 @@ class Facts:
     # -- conditions --------------------------------------------------------------------------
     def assume(self, cond: ast.AST, pol: bool = True) -> "Facts":
         lz = L.Linearizer()
+        if isinstance(cond, ast.Call) and PREDICATES:
+            # a call of a one-line predicate helper (`def _at_end(data, idx): return idx == len(data)`) stands for its body
+            d = dotted(cond.func)
+            pred = PREDICATES.get(d.split(".")[-1]) if d else None
+            if pred is not None and not cond.keywords and len(cond.args) == len(pred[0]) and not any(isinstance(a, ast.Starred) for a in cond.args):
+                import copy
+                mapping = dict(zip(pred[0], cond.args))
+
+                class Sub(ast.NodeTransformer):
+                    def visit_Name(self, n: ast.Name) -> ast.AST:
+                        return copy.deepcopy(mapping[n.id]) if n.id in mapping else n
+
+                body = ast.fix_missing_locations(Sub().visit(copy.deepcopy(pred[1])))
+                return self.add_truth(norm(cond), pol).assume(body, pol)
         if isinstance(cond, ast.UnaryOp) and isinstance(cond.op, ast.Not):
             return self.assume(cond.operand, not pol)
         if isinstance(cond, ast.BoolOp):
@@ -151,6 +165,19 @@ class Facts:
         if not pol:
             t = neg[t]
             f = f.add_truth(f"{norm(a)} {_OPS[t]} {norm(b)}", True)
+        # min(x, y) >= c  =>  x >= c and y >= c ;  max(x, y) <= c  =>  x <= c and y <= c   (and the mirrored forms)
+        for side, other, lower in ((a, b, True), (b, a, False)):
+            if isinstance(side, ast.Call) and dotted(side.func) in ("min", "max") and len(side.args) >= 2 and not side.keywords:
+                is_min = dotted(side.func) == "min"
+                # `side OP other` with side on the left if lower else on the right
+                ge_like = (t in (ast.GtE, ast.Gt)) if lower else (t in (ast.LtE, ast.Lt))
+                le_like = (t in (ast.LtE, ast.Lt)) if lower else (t in (ast.GtE, ast.Gt))
+                if (is_min and ge_like) or ((not is_min) and le_like):
+                    for arg in side.args:
+                        cmp = ast.Compare(left=arg, ops=[op if pol else neg[type(op)]()], comparators=[other]) if lower else \
+                            ast.Compare(left=other, ops=[op if pol else neg[type(op)]()], comparators=[arg])
+                        f = f.assume(ast.fix_missing_locations(cmp), True)
+                    return f
         fa, fb = lz.lin(a), lz.lin(b)
         if fa is None or fb is None:
             return f
@@ -782,6 +809,43 @@ def _walk_same_loop(node: ast.AST):
 
 def is_true_const(n: ast.AST) -> bool:
     return isinstance(n, ast.Constant) and n.value is True
+
+
+PREDICATES: Dict[str, Tuple[List[str], ast.AST]] = {}
+
+
+def register_predicates(funcs: Dict[str, ast.FunctionDef]) -> None:
+    """functions and (static) methods whose body is a single `return <test over the parameters>`; registered by last name.
+    A name defined twice with different bodies is dropped."""
+    seen: Dict[str, str] = {}
+    for q, fn in funcs.items():
+        body = [st for st in fn.body if not (isinstance(st, ast.Expr) and isinstance(st.value, ast.Constant))]
+        if len(body) != 1 or not isinstance(body[0], ast.Return) or body[0].value is None:
+            continue
+        e = body[0].value
+        if not isinstance(e, (ast.Compare, ast.BoolOp, ast.UnaryOp)):
+            continue
+        params = [a.arg for a in fn.args.args]
+        decos = {dotted(d) for d in fn.decorator_list}
+        if "." in q and "staticmethod" not in decos:
+            if params[:1] in (["self"], ["cls"]):
+                params = params[1:]
+        names = {n.id for n in ast.walk(e) if isinstance(n, ast.Name)}
+        allowed = set(params) | {"len", "True", "False", "None", "min", "max", "all", "any"} | {dotted(c.func) for c in ast.walk(e) if isinstance(c, ast.Call) and dotted(c.func)}
+        if "." in q and "staticmethod" not in decos:
+            allowed.add("self")  # attributes of the receiver keep their text (`self.min_block_size`)
+        if not names <= allowed:
+            continue
+        last = q.split(".")[-1]
+        text = norm(e) + "|" + ",".join(params)
+        if last in seen and seen[last] != text:
+            PREDICATES.pop(last, None)
+            seen[last] = "<ambiguous>"
+            continue
+        if seen.get(last) == "<ambiguous>":
+            continue
+        seen[last] = text
+        PREDICATES[last] = (params, e)
 
 
 def summarise_module(funcs: Dict[str, ast.FunctionDef]) -> Dict[str, Dict[Tuple[Optional[int], int], int]]:
